@@ -616,6 +616,25 @@ def spec_forall2(eng, args, kwargs, st):
     yield z3.ForAll([i, j], implies(rng, body)), st
 
 
+def spec_forall2_rect(eng, args, kwargs, st):
+    """forall2_rect(n, m, lambda i, j: body): i in [0, n), j in [0, m)"""
+    n, m, lam = args
+    nc, mc = concrete(n), concrete(m)
+    if nc is not None and mc is not None and nc * mc <= 400:
+        parts = []
+        for a in range(int(nc)):
+            for b in range(int(mc)):
+                for v, _ in call_lambda(eng, lam, [a, b], st):
+                    parts.append(to_bool(v))
+        yield and_(*parts), st
+        return
+    i, j = _bound_var('i'), _bound_var('j')
+    body = None
+    for v, _ in call_lambda(eng, lam, [i, j], st):
+        body = to_bool(v)
+    yield z3.ForAll([i, j], implies(and_(le(0, i), lt(i, n), le(0, j), lt(j, m)), body)), st
+
+
 def spec_forall_real(eng, args, kwargs, st):
     lam = args[0]
     x = z3.Real(fresh_name(lam.node.args.args[0].arg))
@@ -1012,6 +1031,7 @@ SPEC = {
     'forall': spec_forall,
     'exists': lambda eng, a, k, st: spec_forall(eng, a, k, st, exists=True),
     'forall2': spec_forall2,
+    'forall2_rect': spec_forall2_rect,
     'forall_real': spec_forall_real,
     'implies': spec_implies,
     'iff': spec_iff,
